@@ -60,5 +60,7 @@ ASSUMPTIONS = [
     "traversed or read as body, never both; attribute indices stay below aws_xml_node_get_num_attributes",
     "the vectorised base64 path is the one the library selects on this AVX2 host; the portable path is source/encoding.c "
     "compiled a second time from the working tree without USE_SIMD_ENCODING",
+    "recursion depth (cbor_deep: nesting 2^10..2^18) is judged on the Linux default 8 MiB main-thread stack; the harness lowers a "
+    "larger / unlimited RLIMIT_STACK to 8 MiB",
     "allocation failure is not an event (aws_mem_acquire aborts on NULL); leak checking is not part of this property",
 ]
